@@ -255,10 +255,20 @@ func (g *Gateway) introspectField(fieldDef introspection.Field, selectionSet ast
 		case introspectIsDeprecated:
 			result[field.Alias] = fieldDef.IsDeprecated()
 		case introspectDeprecationReason:
-			result[field.Alias] = fieldDef.DeprecationReason()
+			result[field.Alias] = deprecationReason(fieldDef.IsDeprecated(), fieldDef.DeprecationReason())
 		}
 	}
 	return result
+}
+
+// deprecationReason is the reason given to @deprecated, or the directive's default reason when it
+// was applied without one
+func deprecationReason(isDeprecated bool, reason *string) *string {
+	if isDeprecated && reason == nil {
+		defaultReason := "No longer supported"
+		return &defaultReason
+	}
+	return reason
 }
 
 func (g *Gateway) introspectEnumValue(definition *introspection.EnumValue, selectionSet ast.SelectionSet, variables map[string]interface{}) map[string]interface{} {
@@ -276,7 +286,7 @@ func (g *Gateway) introspectEnumValue(definition *introspection.EnumValue, selec
 		case introspectIsDeprecated:
 			result[field.Alias] = definition.IsDeprecated()
 		case introspectDeprecationReason:
-			result[field.Alias] = definition.DeprecationReason()
+			result[field.Alias] = deprecationReason(definition.IsDeprecated(), definition.DeprecationReason())
 		}
 	}
 
